@@ -463,3 +463,52 @@ Proof.
   - rewrite forallb_app, Hct, (op_tags_ok _ Hops). reflexivity.
   - pose proof (op_container_ok _ Hops) as Hoc. destruct (op_container (k_ops c)); [exact Hoc|exact Hcc].
 Qed.
+
+(* ------------------------------------------------------------------ defaults (C04) *)
+(* the client's defaults act exactly as builder calls made BEFORE the caller's own *)
+Definition tag_op (t : tag) : bop := match t with (Some k, v) => WithTag k v | (None, v) => WithTagValue v end.
+Definition default_ops (cfg : config) : list bop :=
+  map tag_op (c_tags cfg) ++ match c_container cfg with Some x => [WithContainerId x] | None => [] end.
+
+Lemma op_tags_map_tag_op : forall tags, op_tags (map tag_op tags) = tags.
+Proof. induction tags as [|[[k|] v] r IH]; cbn [map tag_op op_tags]; try rewrite IH; reflexivity. Qed.
+Lemma op_rate_map_tag_op : forall tags, op_rate (map tag_op tags) = None.
+Proof. induction tags as [|[[k|] v] r IH]; cbn [map tag_op op_rate]; try rewrite IH; reflexivity. Qed.
+Lemma op_container_map_tag_op : forall tags, op_container (map tag_op tags) = None.
+Proof. induction tags as [|[[k|] v] r IH]; cbn [map tag_op op_container]; try rewrite IH; reflexivity. Qed.
+Lemma op_timestamp_map_tag_op : forall tags, op_timestamp (map tag_op tags) = None.
+Proof. induction tags as [|[[k|] v] r IH]; cbn [map tag_op op_timestamp]; try rewrite IH; reflexivity. Qed.
+
+Lemma default_ops_summaries : forall cfg,
+  op_tags (default_ops cfg) = c_tags cfg /\ op_rate (default_ops cfg) = None /\
+  op_container (default_ops cfg) = c_container cfg /\ op_timestamp (default_ops cfg) = None.
+Proof.
+  intros cfg. unfold default_ops.
+  rewrite op_tags_app, op_rate_app, op_container_app, op_timestamp_app.
+  rewrite op_tags_map_tag_op, op_rate_map_tag_op, op_container_map_tag_op, op_timestamp_map_tag_op.
+  destruct (c_container cfg); cbn [op_tags op_rate op_container op_timestamp or_else];
+    rewrite ?app_nil_r; repeat split.
+Qed.
+
+Theorem defaults_as_ops : forall cfg c,
+  client_line cfg c =
+  client_line {| c_prefix := c_prefix cfg; c_tags := []; c_container := None |}
+              {| k_kind := k_kind c; k_key := k_key c; k_arg := k_arg c;
+                 k_ops := default_ops cfg ++ k_ops c |}.
+Proof.
+  intros cfg c. rewrite !client_line_cases. cbn [k_kind k_key k_arg k_ops c_prefix c_tags c_container].
+  rewrite op_tags_app, op_rate_app, op_container_app, op_timestamp_app.
+  destruct (default_ops_summaries cfg) as [E1 [E2 [E3 E4]]]. rewrite E1, E2, E3, E4.
+  rewrite !or_else_None_r. cbn [app]. reflexivity.
+Qed.
+
+(* a client without defaults adds nothing of its own *)
+Theorem no_defaults : forall p c l,
+  client_line {| c_prefix := p; c_tags := []; c_container := None |} c = Some (inr l) ->
+  exists v, to_value (k_kind c) (k_arg c) = Some (inr v) /\
+    l = wire_line (full_name p (k_key c)) (value_texts v) (code (k_kind c))
+                  (op_rate (k_ops c)) (op_tags (k_ops c)) (op_container (k_ops c)) (op_timestamp (k_ops c)).
+Proof.
+  intros p c l H. destruct (shape _ _ _ H) as [v [Hv [_ Hl]]]. exists v. split; [exact Hv|].
+  cbn [c_prefix c_tags c_container app] in Hl. rewrite or_else_None_r in Hl. exact Hl.
+Qed.
